@@ -130,6 +130,11 @@ def check_accessors(run, F, E):
                     x = ir.strip(i['e']) if i.get('e') is not None else None
                     if x is not None and x['k'] == 'init' and len(x.get('es', [])) == 1:
                         x = ir.strip(x['es'][0])
+                    if i['t'] == 'member' and x is not None and x['k'] == 'ctor' and (x.get('copy') or x.get('move')) and len(x.get('args', [])) == 1:
+                        y = ir.strip(x['args'][0])
+                        if y['k'] == 'var' and y.get('vk') == 'param' and y.get('pi') == 0:
+                            bound.add((ctor.tkey, i['name']))       # the member is a copy of the core
+                            refs.append(False)
                     if i['t'] == 'member' and x is not None and x['k'] == 'un' and x['op'] == '&':
                         y = ir.strip(x['e'])
                         if y['k'] == 'var' and y.get('vk') == 'param' and y.get('pi') == 0:
